@@ -595,7 +595,7 @@ func init() {
 		c.Clauses = append(c.Clauses, "C13.equal: the point equality tests (P-384 Jacobian, BLS12-381 G1/G2, Goldilocks, FourQ, Ed25519) depend on every coordinate of both operands")
 		type eq struct {
 			pkg, typ, name string
-			fields        []string
+			fields         []string
 		}
 		for _, e := range []eq{
 			{"ecc/p384", "jacobianPoint", "isEqual", []string{"x", "y", "z"}},
